@@ -4,6 +4,7 @@ package main
 
 // Built without the event hooks (internal/verifhook is not in the tree, see /verif/fixes/hook-conc.diff).
 const hooksAvailable = false
+const hookHasEntry = false
 
 func hookStart()            {}
 func hookStop() []hookEvent { return nil }
